@@ -149,6 +149,12 @@ class Prop:
         if res['result'] == 'discharged':
             return True
         # ---- not discharged: refutation search on the real code
+        self.undischarged = getattr(self, 'undischarged', 0) + 1
+        if self.viol >= 6 and self.undischarged > 8:
+            # the property is already reported violated several times over: further undischarged obligations are
+            # recorded (evidence: result != discharged) without spending the full triage on each of them
+            rec['triage'] = 'skipped (property already reported violated)'
+            return False
         cands = []
         m = res.get('model')
         if m is not None and symbols:
@@ -205,7 +211,7 @@ class Prop:
         rec['unproved_identity'] = True
         return False
 
-    def term_compare(self, code, spec, hyps, pool, n=60):
+    def term_compare(self, code, spec, hyps, pool, n=24):
         syms = E.free_symbols([code, spec] + list(hyps))
         names = [k for k in syms if k != 'pi' and z3.is_real(syms[k])]
         worst = mp.mpf(0)
@@ -222,8 +228,8 @@ class Prop:
             try:
                 if hyps and not all(E.evaluate(h, env) for h in hyps):
                     continue
-                a = E.evaluate(code, env)
-                b = E.evaluate(spec, env)
+                a = E.evaluate(code, env, dps=34)
+                b = E.evaluate(spec, env, dps=34)
             except (ZeroDivisionError, ValueError, KeyError, NotImplementedError, TypeError, OverflowError):
                 continue
             if isinstance(a, mp.mpc) or isinstance(b, mp.mpc):
